@@ -32,6 +32,10 @@ def _intern(x):
     return _INTERN.setdefault(x, len(_INTERN))
 
 
+_EVEN_CALLS = {"norm", "abs", "fabs", "absolute", "cos", "cosh"}
+_ODD_CALLS = {"sin", "tan", "arcsin", "arctan", "sinh", "tanh", "arcsinh", "arctanh", "sign", "cbrt"}
+
+
 def p_add(a, b, sign=1):
     out = dict(a)
     for m, v in b.items():
@@ -133,6 +137,19 @@ def ratfun(e, table=None, subst=None):
             nm = ast.unparse(n.func).split(".")[-1]
             if nm in ("float", "asarray", "array") and not isinstance(n.args[0], (ast.List, ast.Tuple)):
                 return go(n.args[0])
+            nm = _ALIASES.get(nm, nm)
+            if nm in _EVEN_CALLS or nm in _ODD_CALLS:
+                # f(-x) = f(x) resp. -f(x): the argument is taken with the sign that gives the smaller normal form
+                arg = go(n.args[0])
+                neg = (p_scale(arg[0], -1), arg[1])
+                k1, k2 = rat_key(arg), rat_key(neg)
+                # orientation: the first monomial of the numerator (in sorted order) gets a positive coefficient
+                lead = arg[0][sorted(arg[0])[0]] if arg[0] else 1
+                dl = arg[1][sorted(arg[1])[0]] if arg[1] else 1
+                flip = (lead < 0) != (dl < 0)
+                atom = ("call", nm, _intern(((k2 if flip else k1,), ())))
+                coeff = Fraction(-1) if (flip and nm in _ODD_CALLS) else Fraction(1)
+                return ({(atom,): coeff}, ONE)
         return ({(atom_key(n),): Fraction(1)}, ONE)
 
     return go(e)
